@@ -664,6 +664,19 @@ def gen_bound2(tier):
 # ---------------------------------------------------------------------------
 # failures detected by glom itself
 
+class _Ambiguous:
+    def __bool__(self):
+        raise ValueError('the truth value of this answer is ambiguous')
+
+
+def _pred_vague(x):
+    return _Ambiguous()
+
+
+def _pred_raises(x):
+    raise LookupError('predicate failed')
+
+
 def table():
     """(name, target, spec, documented class) - failures that glom itself detects"""
     from glom.grouping import Limit
@@ -678,6 +691,8 @@ def table():
         ('match', 3, Match('a'), MatchError),
         ('match-type', 3, Match(str), TypeMatchError),
         ('m-comparison', 3, M > 5, MatchError),
+        ('match-predicate-raises', 3, Match(_pred_raises), MatchError),
+        ('match-predicate-answer-without-truth-value', 3, Match(_pred_vague), MatchError),
         ('switch-no-case', 3, Switch([(M > 5, Val(1))]), MatchError),
         ('fold-non-iterable', 5, Fold(T, init=int), FoldError),
         ('assign-missing-prefix', {}, Assign('a.b', 1), PathAccessError),
